@@ -564,6 +564,10 @@ fn gen_c06_early_reuse(r: &mut Prng, _i: u64, _t: Tier) -> Plan {
     // or it never reads them: the old object is dropped with unread data after the id was re-used
     let last = if k > 0 && r.chance(1, 3) {
         SidePlan { w: vec![WOp::AwaitOpened(1), WOp::Yield(linger), WOp::Drop], r: vec![], hold: false }
+    } else if r.chance(1, 3) {
+        // or it still writes to the stale object after the id was re-used: the write must fail,
+        // its bytes must not travel under the id that now belongs to the new stream
+        SidePlan { w: vec![WOp::AwaitOpened(1), WOp::Yield(r.below(30)), WOp::Write(1 + r.below(20)), WOp::Yield(linger), WOp::Drop], r: rd, hold: false }
     } else {
         SidePlan { w: vec![WOp::AwaitEof, WOp::Yield(linger), WOp::Drop], r: rd, hold: false }
     };
@@ -598,7 +602,7 @@ fn c06_early_in_space(p: &Plan) -> bool {
             return true;
         }
         !sd.hold
-            && matches!(sd.w.as_slice(), [WOp::AwaitEof, WOp::Yield(_), WOp::Drop])
+            && (matches!(sd.w.as_slice(), [WOp::AwaitEof, WOp::Yield(_), WOp::Drop]) || matches!(sd.w.as_slice(), [WOp::AwaitOpened(1), WOp::Yield(_), WOp::Write(_), WOp::Yield(_), WOp::Drop]))
             && matches!(sd.r.last(), Some(ROp::ReadEof { .. }))
             && (!data || matches!(sd.r.first(), Some(ROp::AwaitOpened(1))))
             && sd.r.iter().all(|o| matches!(o, ROp::ReadEof { .. } | ROp::AwaitOpened(1) | ROp::Yield(_)))
@@ -1151,6 +1155,13 @@ fn gen_c08_workload(r: &mut Prng) -> Plan {
     // behind an application that never accepts cannot answer Close and is outside C08's premise
     p.accept_pace = r.below(4);
     p.late_ops = r.chance(1, 2);
+    // keepalive off, but a timeout value left in the options (penguin's `--keepalive 0` keeps the
+    // default `--keepalive-timeout`): without an interval the timeout must mean nothing
+    for e in &mut p.eps {
+        if r.chance(1, 4) {
+            e.keepalive_ms = [0, *r.pick(&[1u64, 10, 100, 1000])];
+        }
+    }
     p
 }
 fn gen_end_cause(r: &mut Prng) -> FaultKind {
@@ -1347,7 +1358,7 @@ fn x_c08_keepalive(r: &DuoRun, wm: &WireModel, ei: &EndInfo, o: &mut Outcome) {
     // the family's space (the minimiser must not leave it): silent cuts only, keepalive periods
     // far above the round trip of the link, a timeout not below the interval
     let lat = r.plan.link.latency_ms.max(1);
-    let in_space = r.plan.faults.iter().all(|f| matches!(f.kind, FaultKind::Cut { sink_err: false, src: 3, .. } | FaultKind::DropMux { .. } | FaultKind::PeerClose { .. })) && r.plan.faults.iter().any(|f| matches!(f.kind, FaultKind::Cut { .. })) && r.plan.eps.iter().all(|e| e.keepalive_ms == [0, 0] || (e.keepalive_ms[0] >= 20 * lat && e.keepalive_ms[1] >= e.keepalive_ms[0]));
+    let in_space = r.plan.faults.iter().all(|f| matches!(f.kind, FaultKind::Cut { sink_err: false, src: 3, .. } | FaultKind::DropMux { .. } | FaultKind::PeerClose { .. })) && r.plan.faults.iter().any(|f| matches!(f.kind, FaultKind::Cut { .. })) && r.plan.eps.iter().all(|e| e.keepalive_ms[0] == 0 || (e.keepalive_ms[0] >= 20 * lat && e.keepalive_ms[1] >= e.keepalive_ms[0]));
     let orderly_end = r.plan.faults.iter().any(|f| !matches!(f.kind, FaultKind::Cut { .. }));
     if !in_space || (orderly_end && r.plan.eps.iter().any(|e| e.keepalive_ms[0] == 0)) {
         o.violations.clear();
@@ -1422,7 +1433,7 @@ fn gen_c08_backlog_drop(r: &mut Prng, _i: u64, _t: Tier) -> Plan {
 }
 fn x_c08_backlog_drop(r: &DuoRun, wm: &WireModel, ei: &EndInfo, o: &mut Outcome) {
     let lat = r.plan.link.latency_ms.max(1);
-    let in_space = !r.plan.faults.is_empty() && r.plan.faults.iter().all(|f| matches!(f.kind, FaultKind::DropMux { .. })) && r.plan.eps.iter().all(|e| e.keepalive_ms == [0, 0] || (e.keepalive_ms[0] >= 20 * lat && e.keepalive_ms[1] >= e.keepalive_ms[0]));
+    let in_space = !r.plan.faults.is_empty() && r.plan.faults.iter().all(|f| matches!(f.kind, FaultKind::DropMux { .. })) && r.plan.eps.iter().all(|e| e.keepalive_ms[0] == 0 || (e.keepalive_ms[0] >= 20 * lat && e.keepalive_ms[1] >= e.keepalive_ms[0]));
     if !in_space {
         o.violations.clear();
         return;
@@ -1437,6 +1448,9 @@ fn x_c08_backlog_drop(r: &DuoRun, wm: &WireModel, ei: &EndInfo, o: &mut Outcome)
         }
         if r.plan.eps.iter().any(|e| e.keepalive_ms[0] > 0) {
             o.probe("drop-with-long-backlog-under-keepalive", 1);
+        }
+        if r.plan.faults.iter().any(|f| matches!(f.kind, FaultKind::DropMux { ep } if r.plan.eps[ep.min(1)].keepalive_ms[0] == 0 && r.plan.eps[ep.min(1)].keepalive_ms[1] > 0 && r.plan.eps[ep.min(1)].keepalive_ms[1] <= lat)) {
+            o.probe("drop-with-long-backlog-timeout-without-interval", 1);
         }
     }
 }
@@ -1462,7 +1476,7 @@ fn x_c08_drop_then_sink_failure(r: &DuoRun, wm: &WireModel, ei: &EndInfo, o: &mu
     let in_space = r.plan.faults.len() == 2
         && dropper.is_some()
         && r.plan.faults.iter().any(|f| matches!(f.kind, FaultKind::Cut { from, sink_err: true, .. } if Some(from) == dropper))
-        && r.plan.eps.iter().all(|e| e.keepalive_ms == [0, 0] || (e.keepalive_ms[0] >= 20 * lat && e.keepalive_ms[1] >= e.keepalive_ms[0]));
+        && r.plan.eps.iter().all(|e| e.keepalive_ms[0] == 0 || (e.keepalive_ms[0] >= 20 * lat && e.keepalive_ms[1] >= e.keepalive_ms[0]));
     if !in_space {
         o.violations.clear();
         return;
@@ -1516,7 +1530,7 @@ fn x_c08_close_then_silence(r: &DuoRun, wm: &WireModel, ei: &EndInfo, o: &mut Ou
     let in_space = r.plan.faults.len() == 2
         && closer.is_some()
         && r.plan.faults.iter().any(|f| matches!(f.kind, FaultKind::Cut { from, sink_err: false, src: 3, drop_inflight: false } if Some(from.min(1)) == closer))
-        && r.plan.eps.iter().all(|e| e.keepalive_ms == [0, 0]);
+        && r.plan.eps.iter().all(|e| e.keepalive_ms[0] == 0);
     if !in_space {
         o.violations.clear();
         return;
@@ -1555,7 +1569,7 @@ pub fn c08() -> Check {
             fam("close-then-silence", 40_000, 600_000, gen_c08_close_then_silence, OracleCfg::default(), Some(x_c08_close_then_silence), nt_c08, "the chaos workload without keepalive; one endpoint's handle is dropped (or a forged Close arrives at the other) and 0-40 scheduling rounds later the direction from the closing side goes silent - nothing fails, nothing more arrives, not even the end of the transport a WebSocket client waits for after the closing handshake. The endpoint that has consumed the peer's Close is judged by the general clauses: its task returns and nothing is pending at quiescence. Runs in which the silence swallowed the Close itself are not judged (nobody can know)."),
             fam("keepalive-expiry", 40_000, 600_000, gen_c08_keepalive, OracleCfg::default(), Some(x_c08_keepalive), nt_c08, "the chaos workload with keepalive on at one or both endpoints (interval 200-1000 ms, timeout 1-2 intervals) on a link that goes silent at a seeded scheduling round: one or both directions swallow what is sent from then on, no operation of the transport fails. Every endpoint with keepalive on must end (its pings or the pongs to them are lost), and from then on the general clauses apply: its task returned, no call pending at quiescence, reads drain then end, writes fail. Non-trivial as in chaos."),
         ],
-        vec!["late-call-after-end", "end-with-pending-operations", "end-while-writer-parked", "end-while-open-pending", "end-while-bind-pending", "drop-with-queued-frames", "silent-link-under-keepalive", "ended-by-keepalive-expiry", "silent-link-around-orderly-end", "drop-with-long-backlog", "both-handles-dropped-with-backlog", "drop-with-long-backlog-under-keepalive", "sink-failure-during-flush", "sink-failure-during-flush-without-keepalive", "close-then-silence", "close-then-silence-at-the-websocket-client", "fault:cut", "fault:peer-close", "fault:garbage", "fault:drop-mux"],
+        vec!["late-call-after-end", "end-with-pending-operations", "end-while-writer-parked", "end-while-open-pending", "end-while-bind-pending", "drop-with-queued-frames", "silent-link-under-keepalive", "ended-by-keepalive-expiry", "silent-link-around-orderly-end", "drop-with-long-backlog", "both-handles-dropped-with-backlog", "drop-with-long-backlog-under-keepalive", "drop-with-long-backlog-timeout-without-interval", "sink-failure-during-flush", "sink-failure-during-flush-without-keepalive", "close-then-silence", "close-then-silence-at-the-websocket-client", "fault:cut", "fault:peer-close", "fault:garbage", "fault:drop-mux"],
     )
 }
 use crate::link::{Stage, Wire};
@@ -1764,13 +1778,29 @@ pub fn c13() -> Check {
 
 // ------------------------------------------------------------------ C16
 
-pub struct C16Family;
+pub struct C16Family {
+    busy: bool,
+}
+/// a live peer that answers every Ping at once, and an endpoint whose Sink is busy with a burst of
+/// datagrams for several keepalive timeouts (slow link with room for 1-2 messages)
+fn gen_c16_busy(r: &mut Prng) -> C16Plan {
+    let lat = *r.pick(&[5u64, 10, 25]);
+    let i_ms = lat * *r.pick(&[40u64, 60, 100]);
+    let t_req = 2 * i_ms;
+    let backlog = (t_req / lat) as usize * (5 + r.below(6)) + r.below(20);
+    C16Plan { interval_ms: i_ms, timeout_ms: t_req, delays: vec![], tail: Some(0), link: LinkCfg { window: 1 + r.below(2), latency_ms: lat, drop_after_close: false, ws_client: r.below(2) as u8, bp_flush: r.chance(1, 2) }, weights: gen_weights(r), stuck_sink: false, start_delay_ms: if r.chance(1, 4) { i_ms / 2 + 1 } else { 0 }, timeout_first: r.chance(1, 4), replaced_interval_ms: 0, flood_connects: 0, zero_via_from_secs: false, peer_pings_ms: 0, backlog }
+}
 impl Family for C16Family {
     fn name(&self) -> &'static str {
-        "keepalive"
+        if self.busy { "busy-sink" } else { "keepalive" }
     }
     fn runs(&self, tier: Tier) -> u64 {
-        if tier == Tier::Quick { 60_000 } else { 3_000_000 }
+        match (self.busy, tier == Tier::Quick) {
+            (false, true) => 60_000,
+            (false, false) => 3_000_000,
+            (true, true) => 4_000,
+            (true, false) => 200_000,
+        }
     }
     fn generate(&self, batch_seed: u64, index: u64, _tier: Tier) -> (Value, u64) {
         let seed = simcore::prng::mix(batch_seed, "keepalive", index);
@@ -1811,7 +1841,10 @@ impl Family for C16Family {
             }
         }
         let stuck_sink = r.chance(1, 3);
-        let plan = C16Plan { interval_ms: i_ms, timeout_ms: t_req, delays, tail, link: LinkCfg { window: if stuck_sink { 1 + r.below(2) } else { 1 << 20 }, latency_ms: 0, drop_after_close: r.chance(1, 2), ws_client: r.below(2) as u8, bp_flush: r.chance(1, 2) }, weights: gen_weights(r), stuck_sink, start_delay_ms: if r.chance(1, 4) { *r.pick(&[1u64, i_ms / 2 + 1, 2 * t_req.max(i_ms) + 1]) } else { 0 }, timeout_first: r.chance(1, 4), replaced_interval_ms: if r.chance(1, 5) { *r.pick(&[100u64, 4000, 30_000, 100_000]) } else { 0 }, flood_connects: if r.chance(1, 5) { *r.pick(&[1usize, 5, 6, 9]) } else { 0 }, zero_via_from_secs: r.chance(1, 3), peer_pings_ms: if r.chance(1, 4) { (i_ms / *r.pick(&[1u64, 2, 3])).max(1) } else { 0 } };
+        let plan = C16Plan { interval_ms: i_ms, timeout_ms: t_req, delays, tail, link: LinkCfg { window: if stuck_sink { 1 + r.below(2) } else { 1 << 20 }, latency_ms: 0, drop_after_close: r.chance(1, 2), ws_client: r.below(2) as u8, bp_flush: r.chance(1, 2) }, weights: gen_weights(r), stuck_sink, start_delay_ms: if r.chance(1, 4) { *r.pick(&[1u64, i_ms / 2 + 1, 2 * t_req.max(i_ms) + 1]) } else { 0 }, timeout_first: r.chance(1, 4), replaced_interval_ms: if r.chance(1, 5) { *r.pick(&[100u64, 4000, 30_000, 100_000]) } else { 0 }, flood_connects: if r.chance(1, 5) { *r.pick(&[1usize, 5, 6, 9]) } else { 0 }, zero_via_from_secs: r.chance(1, 3), peer_pings_ms: if r.chance(1, 4) { (i_ms / *r.pick(&[1u64, 2, 3])).max(1) } else { 0 }, backlog: 0 };
+        if self.busy {
+            return (serde_json::to_value(gen_c16_busy(r)).expect("plan"), seed);
+        }
         (serde_json::to_value(plan).expect("plan"), seed)
     }
     fn exec(&self, plan: &Value, sched: &Sched, record: bool) -> Outcome {
@@ -1819,6 +1852,9 @@ impl Family for C16Family {
         run_c16(&plan, sched, record)
     }
     fn rule(&self) -> &'static str {
+        if self.busy {
+            return "the same endpoint against a live peer that answers every Ping at once, on a link that takes 5-25 ms per message with room for 1-2 of them; half an interval after the start the application queues a burst of datagrams that keeps the Sink busy for 2-5 timeouts (I = 40-100 message times, T = 2 I). Oracle: ping k leaves no earlier than k*I and no later than the messages the Sink had already taken need (window + 2 message times): never behind the queued burst; no timeout. Non-trivial: at least 3 ping rounds.";
+        }
         "one real endpoint built with a timestamp provider that reads the paused virtual clock, (I, T) from {0.5,1,2,3,5,25} x {0.5,1,2,3,7,60} s set through the builder in its documented order (T < I is clamped) plus disabled values; the raw peer answers ping k after a scripted delay: constant in [0,T], uniform in [0,T], alternating 0 / exactly T, k rounds then dead (the transport then returns nothing at all), never, later than T+I, or far inside T. Horizon max(50 I, T + 12 I). Oracle: ping k leaves at exactly k*I; a dead peer is detected with T <= age of the last pong (event order) <= T + I and every pending call then resolves; a peer answering every ping within T is never timed out; disabled = no ping, no end. Non-trivial: at least 3 ping rounds."
     }
 }
@@ -1827,8 +1863,8 @@ pub fn c16() -> Check {
         property: "C16",
         engine: "muxsim",
         level: "exploration",
-        families: vec![Box::new(C16Family)],
-        required_probes: vec!["keepalive-timeout-fired", "live-peer-never-timed-out", "keepalive-disabled", "timeout-clamped-to-interval", "pings-without-timeout"],
+        families: vec![Box::new(C16Family { busy: false }), Box::new(C16Family { busy: true })],
+        required_probes: vec!["keepalive-timeout-fired", "live-peer-never-timed-out", "keepalive-disabled", "timeout-clamped-to-interval", "pings-without-timeout", "sink-busy-for-more-than-two-timeouts"],
         assumptions: vec!["tokio's paused clock is the only clock: the TimestampProvider type parameter (existing seam) reads it", "a dead peer is a transport that returns nothing, not even Close"],
         real: vec!["penguin_mux connection task incl. schedule_ping_task and wind_down", "penguin_mux::config::Options builder (clamping)", "penguin_mux::timing (OptionalDuration, OptionalInterval)", "tokio::time::interval on the paused timer wheel"],
         stub: vec!["the peer's WebSocket stack (scripted Pong delays)", "WebSocket transport", "scheduler"],
